@@ -364,6 +364,65 @@ def replay_libpass(which):
     return False
 
 
+# ------------------------------------------------------------------ parsehash(): the reported settings are the ones the hash was made with
+def replay_parsehash(name):
+    """for boundary settings (smallest salt incl. the empty one, smallest cost incl. 0, every ident, salt value 0): the dictionary
+    parsehash() reports holds exactly what from_string() parsed, for every key it is documented to carry"""
+    import warnings
+    from passlib import registry
+    warnings.simplefilter("ignore")
+    H = registry.get_crypt_handler(name)
+    base = getattr(H, "wrapped", H)
+    if not hasattr(H, "parsehash") or not hasattr(base, "from_string"):
+        return False
+    kw = c08.ctxkw(H)
+    variants = [{}]
+    sk = set(getattr(H, "setting_kwds", ()))
+    if "rounds" in sk:
+        mn = getattr(base, "min_rounds", 1)
+        variants = [{"rounds": c08.CHEAP.get(name, max(mn, 1))}, {"rounds": mn if (mn == 0 or mn < 20000) else c08.CHEAP.get(name, mn)}]
+    out = []
+    for v in variants:
+        out.append(dict(v))
+        if "salt_size" in sk and getattr(base, "min_salt_size", None) is not None and base.min_salt_size != base.max_salt_size:
+            out.append(dict(v, salt_size=base.min_salt_size))
+        if "salt" in sk and name == "cisco_type7":
+            out.append(dict(v, salt=0))
+        for ident in list(getattr(base, "ident_values", ()) or ())[:4] if "ident" in sk else ():
+            out.append(dict(v, ident=ident))
+    for v in out:
+        try:
+            h = (H.using(**v) if v else H).hash("pw", **kw)
+        except Exception:
+            continue
+        try:
+            ph = H.parsehash(h)
+            obj = base.from_string(H._unwrap_hash(h) if hasattr(H, "_unwrap_hash") else h)
+        except Exception as e:
+            return "%s.parsehash(%r) raises %r" % (name, h, e)
+        always = set(getattr(obj, "_always_parse_settings", ()))
+        for key in getattr(obj, "_parsed_settings", ()):
+            val = getattr(obj, key)
+            if key in always or val != getattr(base, key, object()):
+                if key not in ph or ph[key] != val:
+                    return "%s.parsehash(%r) reports %s=%r, the hash was parsed with %s=%r" % (name, h, key, ph.get(key, "<absent>"), key, val)
+        if obj.checksum is not None and ph.get("checksum") != obj.checksum:
+            return "%s.parsehash(%r) reports a different digest" % (name, h)
+        for key in ph:
+            if key != "checksum" and ph[key] != getattr(obj, key, None):
+                return "%s.parsehash(%r) reports %s=%r, parsed %r" % (name, h, key, ph[key], getattr(obj, key, None))
+    return False
+
+
+def ob_parsehash(names):
+    for n in names:
+        r = replay_parsehash(n)
+        if r:
+            return violation("parsehash: %s" % r, "parsehash:%s" % n, {"module": "harness.c07", "func": "replay_parsehash", "args": {"name": n}})
+    return ok("%d hashers: parsehash() reports the parsed settings at boundary values (empty salt, zero cost, salt 0, every ident)" % len(names),
+              paths=len(names), verdict="finite-enumeration", nontrivial=False)
+
+
 # ------------------------------------------------------------------ libpass PHC records
 def phc_templates():
     import libpass.inspect.phc.defs as D
@@ -526,6 +585,9 @@ def run(tier, seed, t0, only=None):
         obs.append(Ob("render-parse[%s]" % n, ob_render_parse, {"name": n, "nsym": 3 if tier == "quick" else 4}, timeout=1800))
     for w in ("sha256", "sha512", "bcrypt", "pbkdf2"):
         obs.append(Ob("libpass-inspect[%s]" % w, ob_libpass_inspect, {"which": w}, timeout=900))
+    allnames = c08.handler_names()
+    for i in range(0, len(allnames), 10):
+        obs.append(Ob("parsehash#%d" % (i // 10), ob_parsehash, {"names": allnames[i:i + 10]}, timeout=900))
     for tname, t in sorted(phc_templates().items()):
         step = 12
         for a in range(0, len(t), step):
